@@ -344,11 +344,27 @@ func c06(c *Ctx) {
 	add("STRUCT.ts", fname, "exactly two timestamp advances (Packetize, SkipSamples)", p.Position(pz.Pos()), tsStores == 2, fmt.Sprintf("%d stores", tsStores))
 	// ---- abs-send-time on the last packet with a fresh value
 	var setExt *ssa.Call
+	setExtFn := pz          // the function that contains the SetExtension call
+	var helperCall *ssa.Call // when it sits in a helper: the call of that helper in Packetize
 	for _, b := range pz.Blocks {
 		for _, in := range b.Instrs {
 			if call, ok := in.(*ssa.Call); ok {
-				if callee := call.Call.StaticCallee(); callee != nil && core.FuncName(callee) == "rtp.(*Header).SetExtension" {
+				callee := call.Call.StaticCallee()
+				if callee == nil {
+					continue
+				}
+				if core.FuncName(callee) == "rtp.(*Header).SetExtension" {
 					setExt = call
+				} else if core.InModule(callee) && len(call.Call.Args) > 0 && call.Call.Args[0] == ssa.Value(pz.Params[0]) {
+					for _, hb := range callee.Blocks {
+						for _, hin := range hb.Instrs {
+							if hc, ok := hin.(*ssa.Call); ok {
+								if g := hc.Call.StaticCallee(); g != nil && core.FuncName(g) == "rtp.(*Header).SetExtension" {
+									setExt, setExtFn, helperCall = hc, callee, call
+								}
+							}
+						}
+					}
 				}
 			}
 		}
@@ -358,6 +374,17 @@ func c06(c *Ctx) {
 	} else {
 		lastOK := false
 		root, _ := core.AddrKey(setExt.Call.Args[0])
+		if helperCall != nil {
+			// the target packet is a parameter of the helper: look at the argument in Packetize
+			if ld, ok := root.(*ssa.UnOp); ok {
+				root = ld.X
+			}
+			for i, pa := range setExtFn.Params {
+				if root == ssa.Value(pa) && i < len(helperCall.Call.Args) {
+					root = helperCall.Call.Args[i]
+				}
+			}
+		}
 		if ld, ok := root.(*ssa.UnOp); ok {
 			if ia, ok := ld.X.(*ssa.IndexAddr); ok {
 				if sub, ok := ia.Index.(*ssa.BinOp); ok && sub.Op == token.SUB {
@@ -379,7 +406,7 @@ func c06(c *Ctx) {
 			}
 		}
 		add("STRUCT.abs", fname, "abs-send-time goes to packets[len(packets)-1]", p.Position(setExt.Pos()), lastOK, "")
-		res := own.Analyze(p, pz)
+		res := own.Analyze(p, setExtFn)
 		v := res.ValueOf(setExt.Call.Args[2])
 		var bad []string
 		if v != nil {
@@ -402,7 +429,7 @@ func c06(c *Ctx) {
 		for _, t := range p.Implementers(seqIface.Underlying().(*types.Interface)) {
 			next, roc := p.MethodOf(t, "NextSequenceNumber"), p.MethodOf(t, "RollOverCount")
 			if next != nil && roc != nil {
-				seqTransition(c, t, core.Unwrap(next), core.Unwrap(roc))
+				seqTransition(c, t, effectiveBody(core.Unwrap(next)), core.Unwrap(roc))
 			}
 		}
 	}
